@@ -83,7 +83,8 @@ def get_program(source: Source, relative_path: Path = None) -> Program:
             spans). This list is created empty here, to be later calculated from the labels by
             `paroxython.map_taxonomy.Taxonomy`.
     """
-    source = Source(Cleanup.normalize_paroxython_comments(source)[0])  # "#  Paroxython :" is tolerated
+    normalize = Cleanup.normalize_paroxython_comments  # "#  Paroxython :" is tolerated
+    source = Source("\n".join(normalize(line)[0] for line in source.split("\n")))
     source = Source(regex.sub(r"\A(\s*\n)+|\s+\Z", "", source))  # the hints are numbered on the stored lines
     source = centrifugate_hints(source)
     (addition, deletion) = collect_hints(source)
